@@ -131,6 +131,13 @@ def gen_case(rng, i, tier):
             if cand not in ren.values():
                 ren[r2] = cand
         cats = sorted(set(cats) | {"joined-names"})
+    if kind == "faces" and i % 16 < 8:
+        # one axis name contained in the other (a / ax, xi / i, Zeta / Z): still two different axes - decided from the case
+        # index, without a draw, so that the other cases keep their namings
+        pair = [("a", "ax"), ("xi", "i"), ("Z", "Zeta"), ("lon_u", "lon"), ("x", "xc"), ("eta_rho", "eta")][(i // 16) % 6]
+        if not (set(pair) & (set(ren.values()) - {ren[axis_roles[0]], ren[axis_roles[1]]})):
+            ren[axis_roles[0]], ren[axis_roles[1]] = pair
+            cats = sorted(set(cats) | {"contained-axis-names"})
     if kind == "ufunc" and rng.random() < 0.4:
         # dummy names live in a namespace of their own: they may be spelled like the real axes, in any order
         axs = [ren[a] for a in pos]
@@ -391,6 +398,15 @@ def scenario(desc, nm):
     out.append(("interp:a0", rec(lambda: g.interp(da, nm[a0], to="left", boundary="extend").transpose(e0, fd, ...), inv)))
     out.append(("vector", rec(lambda: g.diff({nm[a0]: u}, nm[a0], other_component={nm[a1]: v}, boundary="fill").transpose(e0, fd, ...), inv)))
     out.append(("vector:a1", rec(lambda: g.interp({nm[a1]: v}, nm[a1], other_component={nm[a0]: u}, boundary="fill").transpose(e0, fd, ...), inv)))
+    # a component padded along the *other* axis (its tangential direction), across the axis-swapping link
+    from xgcm.padding import pad
+
+    uc = xr.DataArray(gen.unique_data((2, 2, N, N), 1), dims=[e0, fd, y, x])
+    vc = xr.DataArray(gen.unique_data((2, 2, N, N), 501), dims=[e0, fd, y, x])
+    for lbl, comp, oth, along in (("pad-tangential:a1", a1, a0, a0), ("pad-tangential:a0", a0, a1, a1)):
+        cv, ov = (vc, uc) if comp == a1 else (uc, vc)
+        out.append((lbl, rec(lambda cv=cv, ov=ov, comp=comp, oth=oth, along=along: pad({nm[comp]: cv}, g, {nm[along]: (1, 1)}, boundary="fill", fill_value=0.0,
+                                                                                       other_component={nm[oth]: ov}).transpose(e0, fd, ...), inv)))
     return out
 
 
